@@ -66,7 +66,24 @@ def boom_key():
     return {}[NoRepr()]
 
 
-HOST_GLOBALS = {'G': 5, 'GFLAG': True, 'GOFF': False, 'GLIST': [1, 2, 3], 'boom': boom, 'boom_base': boom_base,
+def picky(v):
+    """True for most arguments; for some it fails, each time with a different kind of error - among them the errors that
+    parsing data at run time raises (SyntaxError from literal_eval / compile), which say nothing about the condition's
+    own text.  A hit on which the condition fails is one rejected hit; the next hit is judged on its own."""
+    if v == 0:
+        raise SyntaxError('malformed data')
+    if v == 1:
+        raise ValueError('bad value')
+    if v == 2:
+        raise StopIteration()
+    if v == 3:
+        raise RecursionError('too deep')
+    if v == 4:
+        raise IndentationError('bad data')
+    return True
+
+
+HOST_GLOBALS = {'picky': picky, 'G': 5, 'GFLAG': True, 'GOFF': False, 'GLIST': [1, 2, 3], 'boom': boom, 'boom_base': boom_base,
                 'boom_unprintable': boom_unprintable, 'boom_unshowable': boom_unshowable, 'boom_key': boom_key,
                 'helper': helper, '__name__': 'c10_host'}
 
@@ -79,6 +96,9 @@ NESTED_CONDS = ['any(v > x for v in GLIST)', '(lambda: x > 3)()', 'all(v != x fo
                 'any(v > G for v in [1, 50, 200])', 'any(v > 1 for v in GLIST)']
 NESTED_WATCHES = ['sum(v for v in GLIST if v > x)', '(lambda: x + 1)()', '[v + x for v in GLIST]',
                   'max(v * G for v in GLIST)', 'sorted(k for k in s)', 'list(map(lambda v: v + x, GLIST))']
+# conditions that fail on some hits (with errors of several kinds, SyntaxError among them) and hold on others
+MIXED_CONDS = ['picky(x)', 'picky(x) and flag', 'picky(len(s))', 'flag or picky(x)', 'compile(s, "<data>", "eval") is not None',
+               "eval(s or '1') != None"]
 BLANK_CONDS = ['', '  ']
 FAIL_CONDS = ['yes', 'true', 'Y', '1/0', 'undefined_name', 'd[1]', "boom('true')", "boom('yes')", "boom('1')", "boom('t')", 'boom_base()',
               'x.nope', 'x >', ')(', "d['y']", "boom('false')", 'int(s)', 'boom_unprintable()',
@@ -169,7 +189,7 @@ class C10(Prop):
         # blanks before / after the expression text (as typed into a form)
         padded = st.tuples(st.sampled_from([' ', '\t', '  ']), st.one_of(grammar, st.sampled_from(BOOL_CONDS)),
                            st.sampled_from(['', ' '])).map(lambda t: t[0] + t[1] + t[2])
-        cond = st.one_of(cond, cond, cond, cond, cond, padded, st.sampled_from(NESTED_CONDS))
+        cond = st.one_of(cond, cond, cond, cond, cond, padded, st.sampled_from(NESTED_CONDS), st.sampled_from(MIXED_CONDS))
         hit = fd({'x': st.integers(0, 8), 'flag': st.booleans(), 'y': st.booleans(),
                                      't': st.booleans(), 'shadow': st.sampled_from([None, None, 99, 3]),
                                      's': st.sampled_from(['', 'abc', 'zzzz', '12', 'a  b', 'a b', 'x\ty']),
